@@ -2947,6 +2947,7 @@ def _apply_sifting(
     """Apply Rudell's sifting algorithm."""
     bdd.collect_garbage()
     n = len(bdd)
+    m = n
     # using `set` injects some randomness
     levels = bdd._levels()
     names = set(bdd.vars)
@@ -2987,6 +2988,9 @@ def _reorder_var(
         start, end = end, start
     _shift(bdd, level, start, levels)
     sizes = _shift(bdd, start, end, levels)
+    if not sizes:
+        # single variable, no other level to move to
+        return level
     k = min(sizes, key=sizes.get)
     _shift(bdd, end, k, levels)
     m_ = len(bdd)
